@@ -355,6 +355,9 @@ func (in *Interp) run(fr *frame, _ interface{}) (ret Value) {
 				}
 			case *ssa.If:
 				c := in.get(fr, x.Cond).(*Term)
+				if in.ex.stats != nil && !c.IsConst() {
+					in.ex.curSite = in.prog.Fset.Position(x.Cond.Pos()).String()
+				}
 				if in.ex.branch(c) {
 					next = b.Succs[0]
 				} else {
@@ -931,4 +934,3 @@ func (in *Interp) binop(op token.Token, a, b Value, ta, tb types.Type) Value {
 	}
 	panic(fmt.Sprintf("binop %s %T", op, a))
 }
-
